@@ -185,6 +185,27 @@ MutationTable == {
   M("skiNotOctetString",        "Field",    "ski",     "fatal",     {"ski"},       "tbs",  TRUE),
   M("akiTrailing",              "Field",    "aki",     "fatal",     {"aki"},       "tbs",  TRUE),
   M("akiNotSequence",           "Field",    "aki",     "fatal",     {"aki"},       "tbs",  TRUE),
+  \* degenerate payloads: well-formed DER of the right outer type with nothing (or the least possible) inside.
+  \* The contract does not pin the outcome; totality (no panic) and coherence do apply
+  M("kuEmptyBits",              "Field",    "ku",      "free",      {"ku"},        "tbs",  TRUE),    \* BIT STRING with no bits
+  M("kuNineBits",               "Field",    "ku",      "free",      {"ku"},        "tbs",  TRUE),    \* only decipherOnly (second octet)
+  M("kuOneBit",                 "Field",    "ku",      "free",      {"ku"},        "tbs",  TRUE),
+  M("bcEmptySequence",          "Field",    "bc",      "free",      {"bc"},        "tbs",  TRUE),
+  M("ekuEmptySequence",         "Field",    "eku",     "free",      {"eku"},       "tbs",  TRUE),
+  M("polEmptySequence",         "Field",    "pol",     "free",      {"pol"},       "tbs",  TRUE),
+  M("polEmptyInfo",             "Field",    "pol",     "free",      {"pol"},       "tbs",  TRUE),
+  M("skiEmpty",                 "Field",    "ski",     "free",      {"ski"},       "tbs",  TRUE),
+  M("akiEmptySequence",         "Field",    "aki",     "free",      {"aki"},       "tbs",  TRUE),
+  M("akiEmptyKeyId",            "Field",    "aki",     "free",      {"aki"},       "tbs",  TRUE),
+  M("aiaEmptyDescription",      "Field",    "aia",     "free",      {"aia"},       "tbs",  TRUE),
+  M("crldpEmptyPoint",          "Field",    "crldp",   "free",      {"crldp"},     "tbs",  TRUE),
+  M("crldpEmptyFullName",       "Field",    "crldp",   "free",      {"crldp"},     "tbs",  TRUE),
+  M("ncEmptySubtrees",          "Field",    "nc",      "free",      {"nc"},        "tbs",  TRUE),
+  M("ncEmptySubtree",           "Field",    "nc",      "free",      {"nc"},        "tbs",  TRUE),
+  M("sanEmptyName",             "Field",    "san",     "free",      {"san"},       "tbs",  TRUE),
+  M("subjectEmptyRDN",          "Field",    "subject", "free",      {"nonEmptyName"}, "tbs", TRUE),
+  M("subjectEmptyAttrValue",    "Field",    "subject", "free",      {"nonEmptyName"}, "tbs", TRUE),
+  M("extValueEmpty",            "DER",      "-",       "free",      {"anyExt"},    "tbs",  TRUE),    \* every extnValue emptied in turn
   M("unkNonMadeCritical",       "Field",    "unkNon",  "benign",    {"unkNon"},    "tbs",  TRUE),
   M("unkCritGarbage",           "Field",    "unkCrit", "benign",    {"unkCrit"},   "tbs",  TRUE)
 }
